@@ -2131,6 +2131,53 @@ func ruleOmittedEmbedded(c *Ctx, rule string) {
 					bad = append(bad, c.pos(g.At))
 				}
 			}
+			// the field whose path is remembered must itself have passed the "am I promoted from a skipped field" test:
+			// an embedded struct nested in a skipped one would otherwise overwrite the outer path, and the rest of the
+			// outer struct's promoted fields would no longer be skipped
+			tested := false
+			web := map[ssa.Value]bool{}
+			var grow func(v ssa.Value)
+			grow = func(v ssa.Value) {
+				if web[v] {
+					return
+				}
+				web[v] = true
+				if p2, ok := v.(*ssa.Phi); ok {
+					for _, e2 := range p2.Edges {
+						if _, isPhi := e2.(*ssa.Phi); isPhi {
+							grow(e2)
+						}
+					}
+				}
+				if refs := v.Referrers(); refs != nil {
+					for _, r := range *refs {
+						if p3, ok := r.(*ssa.Phi); ok && types.Identical(p3.Type(), phi.Type()) {
+							grow(p3)
+						}
+					}
+				}
+			}
+			grow(phi)
+			for _, b := range ld.Parent().Blocks {
+				ifi, isIf := b.Instrs[len(b.Instrs)-1].(*ssa.If)
+				if !isIf || !b.Dominates(ld.Block()) || b == ld.Block() && false {
+					continue
+				}
+				for _, v := range backSlice(ifi.Cond, 12) {
+					switch x := v.(type) {
+					case *ssa.BinOp:
+						if k, ok := x.Y.(*ssa.Const); ok && k.IsNil() && web[x.X] {
+							tested = true
+						}
+					case *ssa.Call:
+						if core.CalleeKey(&x.Call) == "builtin.len" && web[x.Call.Args[0]] {
+							tested = true
+						}
+					}
+				}
+			}
+			c.R.Check(tested, rule, fmt.Sprintf("%s:skip-path-assignment#%d:after-skip-test", core.FuncName(phi.Parent()), n), c.pos(ld), "the path is remembered only for a field that has itself passed the skip test",
+				"the index path of an embedded field is remembered before the test whether that field is itself promoted from a skipped embedded field: an embedded struct inside a tag-named (or overridden) embedded struct overwrites the outer path, and the remaining promoted fields of the outer one become properties of the enclosing struct, which encoding/json never emits there")
 			c.R.Check(len(bad) == 0, rule, fmt.Sprintf("%s:skip-path-assignment#%d", core.FuncName(phi.Parent()), n), c.pos(ld), "the path of an embedded field whose promoted fields are to be skipped is remembered whether or not the field itself is omitted",
 				fmt.Sprintf("the index path of the embedded field is remembered only where the tag parser does not omit the field (test at %v): for an embedded struct tagged `json:\"-\"` the promoted fields are then not skipped and become required properties that encoding/json never emits", bad))
 		}
